@@ -403,16 +403,20 @@ def handle_violations(seed, batch, pool):
         groups.setdefault((it["violation"]["class"], after, it["violation"]["op"] if not after else ""), []).append(it)
     picked = []
     for key in sorted(groups):
-        g = sorted(groups[key], key=lambda it: (len(it["schedule"]["steps"]), it["stratum"], it["index"]))
+        g = sorted(groups[key], key=lambda it: (it["schedule"].get("ids", "real") != "recycled",
+                                               len(it["schedule"]["steps"]), it["stratum"], it["index"]))
         picked.extend(g[:2])
     picked = picked[:16]
-    minimised = []
+    minimised, unreproducible = [], []
     futs = [pool.submit(minimise_task, it) for it in picked]
     for it, f in zip(picked, futs):
         try:
             minimised.append(f.result(timeout=1800))
         except Exception:  # noqa: BLE001
-            return [], [], ["minimiser failed on %s:%d\n%s" % (it["stratum"], it["index"], traceback.format_exc())]
+            # e.g. a failure that depends on which addresses the allocator
+            # reuses (real id() values): reported only if nothing else confirms
+            unreproducible.append("minimiser failed on %s:%d (ids=%s)\n%s" % (
+                it["stratum"], it["index"], it["schedule"].get("ids", "real"), traceback.format_exc()))
     known = load_known()
     seen, vlines, klines, harness = set(), [], [], []
     for m in sorted(minimised, key=lambda m: (len(m["schedule"]["steps"]), m["stratum"], m["index"])):
@@ -432,6 +436,8 @@ def handle_violations(seed, batch, pool):
             harness.append("violation %s did not replay exactly (simulator not deterministic?)\n%s" % (path, outp))
             continue
         vlines.append((path, m))
+    if not vlines and not klines:
+        harness += unreproducible
     return vlines, klines, harness
 
 
@@ -642,10 +648,13 @@ def check_main(tier, seed, args):
         print(line)
     print("C14 %s: %d runs (%s), %d steps, %d checked used-vs-fresh query pairs, %d distinct histories judged after a state change, %.1fs"
           % (tier, batch.runs, dict(batch.per_stratum), batch.steps, batch.stats["checked"], len(batch.nontrivial), wall))  # fmt: skip
-    if harness:
+    if harness and not vlines:
         for hmsg in harness:
             sys.stderr.write("HARNESS-ERROR: %s\n" % hmsg)
         return 2
+    for hmsg in harness:
+        # confirmed violations below were each re-executed in a fresh interpreter and failed identically
+        sys.stderr.write("NOTE (harness): %s\n" % hmsg)
     if vlines:
         for path, m in vlines:
             print("violation: class=%s signature=%s steps=%s" % (
